@@ -382,8 +382,17 @@ def _judge(sc, S, table, jobs, state, threads, thread_errors, res, wit):
         viol("a thread of the executor died with an exception", "thread-exception:" + thread_errors[0].split(":")[0], errors=thread_errors[:3])
     if state["shutdown_exc"]:
         res["counters"]["shutdown_ended_by_exception"] += 1
-    if sc["shutdown"] in ("wait", "wait+nowait") and state["shutdown_returned"] is not None and state.get("alive_at_return"):
-        viol("shutdown(wait=True) ended while a solver process was still running", "wait-shutdown-ended-early", alive=state["alive_at_return"], shutdown_exception=state["shutdown_exc"])
+    early = state.get("alive_at_return") or []
+    if sc["shutdown"] == "wait+nowait":
+        # a concurrent shutdown(wait=False) may be in the middle of its cancel (terminate sent, grace period running, force kill pending) when
+        # the waiting shutdown returns: a process that is still being killed then is a transient state, not one that "keeps running" —
+        # only processes that are still alive when nothing can happen any more count
+        transient = [e for e in early if e not in survivors]
+        if transient:
+            res["counters"]["alive_at_wait_return_but_killed_by_concurrent_cancel"] += 1
+        early = [e for e in early if e in survivors]
+    if sc["shutdown"] in ("wait", "wait+nowait") and state["shutdown_returned"] is not None and early:
+        viol("shutdown(wait=True) ended while a solver process was still running", "wait-shutdown-ended-early", alive=early, shutdown_exception=state["shutdown_exc"])
     expect_all_dead = sc["shutdown"] is not None and state["shutdown_returned"] is not None
     if sc["shutdown"] == "wait+nowait":
         res["features"]["double-shutdown"] += 1
@@ -654,7 +663,8 @@ def real_worker(task):
                     res["counters"]["calm_results_checked"] += 1
                     if out != (want, "", 0):
                         res["violations"].append(dict(what="a job that ended normally delivered a wrong result", key="real-wrong-result", kind=rec["kind"], got=(out[0][:40], out[1][:40], out[2]), index=idx, mode="real"))
-        elif wrappers:
+        if wrappers:
+            # (also in calm runs: a shutdown that arrives while a wrapper is still forking is the known finding, probed separately)
             for t in ths:
                 t.join()
             want = 2 * sum(1 for r in recs if r["accepted"] and r["kind"] == "children")
@@ -665,7 +675,7 @@ def real_worker(task):
             established = nsleeps() >= want
             res["counters"]["real_runs_with_established_trees" if established else "real_runs_tree_not_established"] += 1
             time.sleep(rng.choice([0, 0.01, 0.3]))
-        else:
+        elif not calm:
             time.sleep(rng.choice([0, 0, 0.0005, 0.002, 0.01, 0.05, 0.3]))
         t0 = time.time()
         ex.shutdown(wait=False)
